@@ -405,10 +405,24 @@ def op_ibtp_defect(frm, index, defect, **kw):
                 body=("ibtp", ("done",)), invalid=True, tag="ibtp_" + defect)
 
 
-def op_ibtp_ok(frm, index, **kw):
-    """valid request chainA:svc1 -> chainB:svc1 with the expected index: handled by the real contracts (opaque)"""
+def ibtp_request_prog(ids, index, frm="1356:chainA:svc1", to="1356:chainB:svc1", dst_chain="chainB", tail=("done",)):
+    """what HandleIBTP does for an accepted request between two local services (audit off):
+    CrossInvoke TransactionManager.Begin (Add tx record), PostInterchainEvent, ProcessIBTP
+    (Set source counters, AddObject index->tx hash, Set destination counters)"""
+    tid = "%s-%s-%d" % (frm, to, index)
+    ic, tm = CID["interchain"], CID["txmgr"]
+    k_tx = ids.key("c:txmgr", "tx-" + tid)
+    k_from = ids.key("c:interchain", "service-" + frm)
+    k_idx = ids.key("c:interchain", "index-tx-" + tid)
+    k_to = ids.key("c:interchain", "service-" + to)
+    rest = ("ev", [(chain_id(dst_chain), False)], ("jw", k_from, "OBS", ("raw", k_idx, "OBS", ("jw", k_to, "OBS", tail))))
+    return ("touch", ic, ("touch", CID["servicemgr"], ("cross", tm, ("raw", k_tx, "OBS", ("done",)), rest, rest)))
+
+
+def op_ibtp_ok(ids, frm, index, **kw):
+    """valid request chainA:svc1 -> chainB:svc1 with the expected index"""
     return dict(tx={"t": "ibtp", "from": frm, "ibtp": ibtp(index, **kw)}, frm=frm,
-                body=("ibtp", ("ev", [(chain_id("chainB"), False)], ("done",))), invalid=False, tag="ibtp_ok", opaque=True)
+                body=("ibtp", ibtp_request_prog(ids, index)), invalid=False, tag="ibtp_ok", ibtp_ok=True)
 
 
 def op_ibtp_wrong_index(frm, index, **kw):
@@ -443,7 +457,13 @@ def resolve_obs_values(body, ids, ob_state):
                         v = ids.val(s[3])
             return ("jw", p[1], v, fix(p[3]))
         if p[0] == "raw":
-            return ("raw", p[1], p[2], fix(p[3]))
+            v = p[2]
+            if v == "OBS":
+                v = 1
+                for s in ob_state or []:
+                    if ids.key(s[0], s[1]) == p[1] and s[3] is not None:
+                        v = ids.val(s[3])
+            return ("raw", p[1], v, fix(p[3]))
         if p[0] in ("touch", "ev"):
             return (p[0], p[1], fix(p[2]))
         if p[0] == "jd":
@@ -501,6 +521,8 @@ class Run:
         other = ob.get("other") or 0
         changed = {}
         for s in ob.get("state") or []:
+            if s[0] == "c:txmgr" and s[1].startswith("timeout-"):
+                continue        # written by the executor's block post-processing (setTimeoutList), outside any transaction frame
             k = ids.key(s[0], s[1])
             if k in keys or not (opaque and s[0] in OPAQUE_CONTRACTS):
                 changed[k] = (s[0], s[1])
